@@ -171,6 +171,9 @@ func (p *vC01Pin) sanitize() {
 	if p.Ref < -1 {
 		p.Ref = -1
 	}
+	if p.Mode < 0 {
+		p.Mode = 0
+	}
 	if p.ExpNs < 0 || p.ExpNs > 999999999 {
 		p.ExpNs = 0
 	}
@@ -396,6 +399,7 @@ type vC01Rig struct {
 	heartbeat time.Duration
 	restores  int
 	overflow  bool
+	stepObs   bool
 }
 
 func (r *vC01Rig) setCommitter(i int) { r.cmu.Lock(); r.committer = i; r.cmu.Unlock() }
@@ -403,7 +407,7 @@ func (r *vC01Rig) getCommitter() int  { r.cmu.Lock(); defer r.cmu.Unlock(); retu
 
 func vC01NewRig(nNodes int, trailing uint64) *vC01Rig {
 	r := &vC01Rig{logData: map[uint64][]byte{}, trailing: trailing, hold: map[int]chan struct{}{}, holdArmed: map[int]bool{},
-		heartbeat: time.Duration(vEnvInt("VERIF_C01_HB_MS", 60)) * time.Millisecond}
+		heartbeat: time.Duration(vEnvInt("VERIF_C01_HB_MS", 60)) * time.Millisecond, stepObs: true}
 	for i := 0; i < nNodes; i++ {
 		r.addNode()
 	}
@@ -469,7 +473,8 @@ func (r *vC01Rig) start(n *vC01Node) error {
 		rpcReady: make(chan struct{}, 1), readyCh: make(chan struct{}, 1)}
 	baseOp := &LogOp{consensus: cc}
 	oplog := libp2praft.NewOpLog(st, baseOp)
-	g := &vC01Guard{rig: r, node: n, inner: vC01WrapFSM(oplog.FSM(), st)}
+	cc.consensus = oplog
+	g := &vC01Guard{rig: r, node: n, inner: vC01WrapFSM(oplog.FSM(), st), cc: cc}
 	r.mu.Lock()
 	if n.started {
 		r.trace = append(r.trace, vC01Ev{Kind: "restart", Node: n.idx})
@@ -486,7 +491,6 @@ func (r *vC01Rig) start(n *vC01Node) error {
 	}
 	actor := libp2praft.NewActor(ra)
 	oplog.SetActor(actor)
-	cc.consensus = oplog
 	cc.actor = actor
 	cc.baseOp = baseOp
 	rctx, rcancel := context.WithCancel(context.Background())
@@ -666,8 +670,13 @@ func (r *vC01Rig) observe(n *vC01Node) {
 	if n.crashed {
 		return
 	}
+	r.observeLocked(n, n.cc)
+}
+
+// observeLocked: the caller holds r.mu
+func (r *vC01Rig) observeLocked(n *vC01Node, cc *Consensus) {
 	ev := vC01Ev{Kind: "obs", Node: n.idx}
-	st, err := n.cc.State(context.Background())
+	st, err := cc.State(context.Background())
 	if err == nil {
 		pins, err2 := st.List(context.Background())
 		if err2 == nil {
@@ -718,6 +727,7 @@ type vC01Guard struct {
 	rig   *vC01Rig
 	node  *vC01Node
 	inner hraft.FSM
+	cc    *Consensus
 	dead  bool
 }
 
@@ -744,6 +754,9 @@ func (g *vC01Guard) Apply(l *hraft.Log) (ret interface{}) {
 	}()
 	ret = g.inner.Apply(l)
 	g.rig.trace = append(g.rig.trace, vC01Ev{Kind: "apply", Node: g.node.idx, Idx: l.Index})
+	if g.rig.stepObs {
+		g.rig.observeLocked(g.node, g.cc) // "at all times": the pinset after every single step
+	}
 	return ret
 }
 
@@ -844,5 +857,8 @@ func (g *vC01Guard) Restore(rc io.ReadCloser) error {
 		return err
 	}
 	g.rig.trace = append(g.rig.trace, vC01Ev{Kind: "restore", Node: g.node.idx, Idx: idx, Hash: vC01Hash(b), Ok: err == nil})
+	if g.rig.stepObs && err == nil {
+		g.rig.observeLocked(g.node, g.cc)
+	}
 	return err
 }
